@@ -166,6 +166,7 @@ func C05(r *report.Report, tier string) {
 		if h.Name != "truncate-write-remove-big" && h.Name != "removebig-create-reuse" && h.Name != "write-remove" && h.Name != "truncate-nonzero-remove-big" {
 			continue
 		}
+		h.Prefer = "C05"
 		s := ExploreAll(r, "nfs.conc", h, bound, vrt.PUnlock, false)
 		r.Sample(map[string]interface{}{"harness": h.Name, "executions": s.Execs})
 	}
